@@ -87,7 +87,11 @@ def plans(draw, stacks=('thrift', 'thriftmux'), max_calls=8):
       'serverset': {'kind': 'dynamic' if dynamic else 'uri', 'initial': initial, 'events': events},
       'servers': servers, 'calls': calls,
       'run_ms': 2 * T + max([c['timeout_ms'] or T for c in calls] + [T]) + 1000,
-      'close_at': None,
+      # one plan in eight: the application closes the client in the very instant it has issued one of its calls
+      # (calls still in flight then end with an error or with their timeout, as always exactly once and in time)
+      'close_at': (calls[draw(st.integers(0, len(calls) - 1))]['at'] if calls and draw(st.sampled_from([False] * 7 + [True])) else None),
+      # ThriftMux, one plan in eight: a connection whose tag space is all but used up (two tags left): further calls find no tag
+      'tag_state': ([2 ** 24 - 4, []] if stack == 'thriftmux' and draw(st.sampled_from([False] * 7 + [True])) else None),
   }
 
 
